@@ -44,6 +44,11 @@ class CSSCaptureHTMLParser(htmlparser_HTMLParser):
     curtag = ''
     sheets = []  # (type, [atts, cssText])
 
+    def reset(self):
+        # (called by __init__) every parser has its own list
+        htmlparser_HTMLParser.reset(self)
+        self.sheets = []
+
     def _loweratts(self, atts):
         return dict([(a.lower(), v.lower()) for a, v in atts])
 
@@ -365,10 +370,13 @@ def csscombine(path=None, url=None, cssText=None, href=None,
 
     oldser = css_parser.ser
     css_parser.setSerializer(css_parser.serialize.CSSSerializer())
-    if minify:
-        css_parser.ser.prefs.useMinified()
-    css_parser.ser.prefs.resolveVariables = resolveVariables
-    cssText = result.cssText
-    css_parser.setSerializer(oldser)
+    try:
+        if minify:
+            css_parser.ser.prefs.useMinified()
+        css_parser.ser.prefs.resolveVariables = resolveVariables
+        cssText = result.cssText
+    finally:
+        # also if serializing raised (e.g. an unknown target encoding)
+        css_parser.setSerializer(oldser)
 
     return cssText
